@@ -7,10 +7,13 @@ Local Open Scope N_scope.
 Record obs10 := mkobs10 {
   b_id : opid; b_status : N; b_title : N; b_comments : list comment; b_labels : list N;
   b_actors : list N; b_parts : list N; b_timeline : list (bool * N) (* is a comment item, 14-char head of the op id *);
-  b_ops : list opid; b_meta : list (list (N * N)) (* per operation, sorted by key *);
+  b_ops : list opid; b_meta : list (list (N * N)) (* per operation, sorted by key: AllMetadata *);
+  b_meta_get : list (list (N * N)) (* the same through the per-key accessor GetMetadata (and GetCreateMetadata) *);
   b_same : bool (* compiling twice gives the same snapshot *);
   b_incr : bool (* applying operation by operation, as the cache does, gives the same snapshot *) }.
-Record case := mkcase10 { k_ops : list op; k_obs : obs10 }.
+(* k_own: the metadata each operation carries itself (part of its content, hence of its id); the model and the
+   specification speak of the metadata attached later, which never overrides it *)
+Record case := mkcase10 { k_ops : list op; k_own : list (list (N * N)); k_obs : obs10 }.
 
 Fixpoint list_eqb {A} (eqb : A -> A -> bool) (a b : list A) : bool :=
   match a, b with [], [] => true | x :: a', y :: b' => eqb x y && list_eqb eqb a' b' | _, _ => false end.
@@ -23,16 +26,22 @@ Definition kv_eqb (a b : N * N) := N.eqb (fst a) (fst b) && N.eqb (snd a) (snd b
 
 Definition bn_eqb (a b : bool * N) := Bool.eqb (fst a) (fst b) && N.eqb (snd a) (snd b).
 
-Definition snap_matches (s : snapshot) (o : obs10) : bool :=
+Definition with_own (own extra : list (N * N)) : list (N * N) :=
+  kv_sort (fold_left (fun m p => if existsb (fun q => N.eqb (fst q) (fst p)) m then m else m ++ [p]) extra own).
+Fixpoint map2 {A B C} (f : A -> B -> C) (a : list A) (b : list B) : list C :=
+  match a, b with x :: a', y :: b' => f x y :: map2 f a' b' | _, _ => [] end.
+
+Definition snap_matches (own : list (list (N * N))) (s : snapshot) (o : obs10) : bool :=
   match s_id s with Some i => opid_eqb i (b_id o) | None => false end &&
   N.eqb (s_status s) (b_status o) && N.eqb (s_title s) (b_title o) &&
   list_eqb comment_eqb (s_comments s) (b_comments o) && nl_eqb (s_labels s) (b_labels o) &&
   nl_eqb (s_actors s) (b_actors o) && nl_eqb (s_parts s) (b_parts o) &&
   list_eqb bn_eqb (map titem_view (s_timeline s)) (b_timeline o) &&
   list_eqb opid_eqb (s_ops s) (b_ops o) &&
-  list_eqb (list_eqb kv_eqb) (map (fun e => kv_sort (snd e)) (s_extra s)) (b_meta o).
+  list_eqb (list_eqb kv_eqb) (map2 with_own own (map snd (s_extra s))) (b_meta o) &&
+  Nat.eqb (length own) (length (s_extra s)).
 
-Definition agrees (c : case) : bool := snap_matches (compile (k_ops c)) (k_obs c).
+Definition agrees (c : case) : bool := snap_matches (k_own c) (compile (k_ops c)) (k_obs c).
 
 (* the documented interpretation (spec_title, spec_status, spec_labels, spec_comments, spec_actors_parts,
    spec_timeline, spec_meta), kv_sort, titem_view and nodupb live in SnapSpec.v (re-exported here) *)
@@ -56,7 +65,9 @@ Definition C10_ok (c : case) : bool :=
     forallb (fun a => existsb (N.eqb a) (b_actors o)) (b_parts o) &&
     list_eqb bn_eqb (b_timeline o) (spec_timeline first ops) &&
     list_eqb opid_eqb (b_ops o) (map op_id ops) &&
-    list_eqb (list_eqb kv_eqb) (b_meta o) (spec_meta ops) &&
+    list_eqb (list_eqb kv_eqb) (b_meta o) (map2 with_own (k_own c) (spec_meta ops)) &&
+    Nat.eqb (length (k_own c)) (length ops) &&
+    list_eqb (list_eqb kv_eqb) (b_meta_get o) (b_meta o) &&
     b_same o && b_incr o
   end.
 
